@@ -9,7 +9,7 @@ wt=/tmp/wt/$prop; demo=/tmp/wt/$prop-demo
 export PATH=/opt/veriftools/go1.26.8/bin:$PATH GOFLAGS=-mod=mod GOPROXY=off GOSUMDB=off GOTOOLCHAIN=local; unset GOWORK
 git -C $wt checkout -q -- . || exit 1
 cd $demo || exit 1
-run_demo() { (cd $demo && timeout 300 go test -count=1 -run "TestDemo$n\$" . >/tmp/wt/demo_$id.log 2>&1); }
+run_demo() { (cd $demo && timeout 300 go test -count=1 -run "TestDemo${n}([^0-9]|\$)" . >/tmp/wt/demo_$id.log 2>&1); }
 run_demo; base=$?
 git -C $wt apply $demo/change$n.diff || { echo "APPLY FAILED"; exit 1; }
 (cd $wt && go build ./pkg/... ./cmd/bb_worker ./cmd/bb_scheduler ./cmd/bb_runner) >/tmp/wt/build_$id.log 2>&1; build=$?
